@@ -285,6 +285,18 @@ func faultBody(x *explore.Ctx, cfg WConfig, prog int, tier string, id string) {
 		x.Check(err != nil, key("later-write-succeeds:"+l.name), "%s after a transport fault (%v at op %d) returned nil", l.name, fs.kind, fs.at)
 	}
 	x.Check(len(e.NC.Writes) == nW, key("write-after-fault"), "later API calls wrote %d more times to the transport", len(e.NC.Writes)-nW)
+	// a failed connection must not poison anything shared: a fresh, healthy connection of the
+	// same configuration created afterwards writes a flawless message
+	cfg2 := cfg
+	cfg2.SizeIdx, cfg2.ForcePool = 0, false
+	e2 := NewWEnv(x, cfg2, false)
+	e2.Name = "fresh"
+	e2.OnErr = func(ac *APICall) {
+		x.Failf(key("fresh-connection-fails"), "a fresh connection created after another connection's transport fault: %s returned %v", ac.Name, ac.Err)
+	}
+	e2.WriteMessageProg(PWriteMessage, websocket.BinaryMessage, 300, 3, func(int, string) int { return 0 }, func(int, string) int { return 0 }, nil)
+	e2.WriteMessageProg(PNextWriterAll, websocket.TextMessage, 40, 4, func(int, string) int { return 0 }, func(int, string) int { return 0 }, nil)
+	judgeWire(x, e2, "C10")
 }
 
 func completes(name string) bool {
